@@ -27,7 +27,7 @@ SC_HOST = os.path.join(util.VERIF, "harness", "mock", "sc_host.py")
 
 EPS = ("ws", "imds", "ga")
 EP_JSON = {"ws": "wireserver", "imds": "imds", "ga": "hostga"}
-AGUIDS = ("g1", "g2", "g3", "g4")
+AGUIDS = ("g1", "g2", "g3", "g4", "g5", "g6")
 FOREIGN = "gx"
 NOITEM = {"id": "", "mode": "-", "c": "-"}
 CONTENTS = ("c1", "c2", "c3")
@@ -1016,11 +1016,11 @@ def read_keys_dir(keys_dir):
 
 C08_SCENARIOS = {
     # name: (init scenario, named for 'rotated', queue of guids the host hands out)
-    "fresh": ("fresh", None, ["g1", "g2", "g3", "g4"]),
-    "restart-with-key": ("haskey", None, ["g2", "g3", "g4"]),
-    "rotation": ("rotated", FOREIGN, ["g2", "g3", "g4"]),
-    "rotation-unnamed": ("rotated", "none", ["g2", "g3", "g4"]),
-    "unreadable-local-key": ("unreadable", None, ["g2", "g3", "g4"]),
+    "fresh": ("fresh", None, ["g1", "g2", "g3", "g4", "g5", "g6"]),
+    "restart-with-key": ("haskey", None, ["g2", "g3", "g4", "g5", "g6"]),
+    "rotation": ("rotated", FOREIGN, ["g2", "g3", "g4", "g5", "g6"]),
+    "rotation-unnamed": ("rotated", "none", ["g2", "g3", "g4", "g5", "g6"]),
+    "unreadable-local-key": ("unreadable", None, ["g2", "g3", "g4", "g5", "g6"]),
 }
 C08_PLANS = {
     "none": {},
@@ -1045,6 +1045,9 @@ C08_FSFAULTS = {
     "store-rename-fails": ("rename", "EIO", 1),
     "store-rename-fails-twice": ("rename", "EIO", 2),
     "readback-fails": ("final-open", "EIO", 1),
+    # the stored key cannot be read for several polls in a row (every read of a key file fails three times running: after
+    # start-up the process reads nothing else), then the disk heals
+    "readback-fails-3x": ("final-read", "EIO", 3),
 }
 for _n in C08_FSFAULTS:
     C08_PLANS[_n] = {}
@@ -1068,6 +1071,8 @@ def fault_target(entries, what):
         if what == "tmp-write" and n in ("write", "writev") and o.endswith(".tmp"):
             return e
         if what == "final-open" and renamed and n == "openat" and o.endswith(".key"):
+            return e
+        if what == "final-read" and renamed and n == "read" and o.endswith(".key"):
             return e
     return None
 
@@ -1135,6 +1140,30 @@ class Sweeper:
         lat = "none" if hs["latched"] is None else GUID_REV.get(hs["latched"], "?")
         return {"final": final, "tmp": tmp, "latched": lat, "damaged": sorted(damaged), "stray": stray}
 
+    def _fault_spec(self, plan, t):
+        what, errno, times = C08_FSFAULTS[plan]
+        return (t["name"], errno, "%d..%d" % (t["ord"], t["ord"] + times - 1) if times > 1 else str(t["ord"]))
+
+    def _spawn_faulted(self, scenario, plan, tag, inject=None):
+        """prepare + spawn with the plan's storage fault; the ordinal of a call can shift by a wake-up write between two
+        runs, so a run in which the fault fell on a call that is not on the key directory is thrown away and repeated
+        with the ordinal the intended call had in that very run.  -> (init, run) or (init, None) when it never fits"""
+        init = None
+        for _ in range(6):
+            init = self._prepare(scenario, plan)
+            fault = self.faults.get((scenario, plan))
+            r = self._spawn(tag, inject=inject, fault=fault)
+            if not fault:
+                return init, r
+            hit = [e for e in r["entries"] if e["injected"]]
+            if all(e["obj"].startswith("key:") or e.get("to") for e in hit) and (hit or r["killed"]):
+                return init, r
+            t = fault_target(r["entries"], C08_FSFAULTS[plan][0])
+            if t is not None and not t["injected"]:
+                self.faults[(scenario, plan)] = self._fault_spec(plan, t)
+            self.refits = getattr(self, "refits", 0) + 1
+        return init, None
+
     def baseline(self, scenario, plan):
         """an undisturbed run of the scenario (with the plan's storage fault, if it has one) -> its kill points"""
         fault = None
@@ -1145,15 +1174,11 @@ class Sweeper:
             t = fault_target(r0["entries"], what) if r0["rc"] == 0 else None
             if t is None:
                 raise util.ToolError("no %s call found in the undisturbed run of %s/%s (rc=%s)" % (what, scenario, plan, r0["rc"]))
-            fault = (t["name"], errno, "%d..%d" % (t["ord"], t["ord"] + times - 1) if times > 1 else str(t["ord"]))
-            self.faults[(scenario, plan)] = fault
-        self._prepare(scenario, plan)
-        r = self._spawn("base", fault=fault)
-        if fault:
-            hit = [e for e in r["entries"] if e["injected"]]
-            if not hit or any(not (e["obj"].startswith("key:") or e.get("to")) for e in hit):
-                raise util.ToolError("the storage fault of %s/%s did not hit the intended call: %s" % (
-                    scenario, plan, [(e["name"], e["obj"]) for e in hit]))
+            self.faults[(scenario, plan)] = self._fault_spec(plan, t)
+        _, r = self._spawn_faulted(scenario, plan, "base")
+        fault = self.faults.get((scenario, plan))
+        if r is None or (fault and not any(e["injected"] for e in r["entries"])):
+            raise util.ToolError("the storage fault of %s/%s could not be placed on the intended call" % (scenario, plan))
         if r["rc"] != 0:
             raise util.ToolError("baseline run of %s/%s failed rc=%s %s: %s" % (scenario, plan, r["rc"], r["result"], self.rg.agent_err()[-400:]))
         inj = sorted({e["name"] for e in r["entries"]}) if self.all else QUICK_SET
@@ -1165,17 +1190,16 @@ class Sweeper:
     def case(self, case_id, scenario, plan, point):
         """first process (killed before `point`, or undisturbed when point is None), then a fresh process on the same
         directory and host -> (rows for KeyKeeperTraceFs, summary)"""
-        init = self._prepare(scenario, plan)
-        damaged = set(init["damaged"])
         rg = self.rg
+        if plan in C08_FSFAULTS and self.faults.get((scenario, plan)) is None:
+            self.baseline(scenario, plan)
+        init, r1 = self._spawn_faulted(scenario, plan, "first", inject=(point[0], point[1]) if point else None)
+        if r1 is None:
+            return None           # the storage fault could not be placed in this run: no case
+        fault = self.faults.get((scenario, plan))
+        damaged = set(init["damaged"])
         rows = [{"e": "case", "id": case_id, "final0": init["final"], "latched0": init["latched"], "damaged": sorted(damaged)},
                 {"e": "spawn"}]
-        fault = self.faults.get((scenario, plan))
-        if plan in C08_FSFAULTS and fault is None:
-            self.baseline(scenario, plan)
-            fault = self.faults[(scenario, plan)]
-            init = self._prepare(scenario, plan)
-        r1 = self._spawn("first", inject=(point[0], point[1]) if point else None, fault=fault)
         if r1["timeout"] or (r1["rc"] not in (0, -9) and not r1["killed"]):
             raise util.ToolError("case %s: first process ended rc=%s %s %s" % (case_id, r1["rc"], r1["result"], rg.agent_err()[-300:]))
         o1 = self._observe(damaged)
@@ -1198,6 +1222,9 @@ class Sweeper:
         o2 = self._observe(damaged)
         hl2 = [x for x in rg.host.call(op="log")["log"] if x["seq"] > seq0]
         rows += translate(r2["entries"], rg.keys, [x for x in hl2 if x["kind"] == "attest"])
+        unknown = [x.get("issued") for x in hl1 + hl2 if x["kind"] == "acquire" and x.get("issued") and x["issued"] not in GUID_REV]
+        if unknown:
+            raise util.ToolError("case %s (%s/%s): the host ran out of scripted keys (%s)" % (case_id, scenario, plan, unknown[:2]))
         signed = [x for x in hl2 if x["kind"] == "signed"]
         sg = signed[-1] if signed else {}
         rows.append(dict({"e": "exit", "killed": False, "restart": True, "latched0": lat0, "good0": bool(good0),
